@@ -334,6 +334,13 @@ def modfunc(ex, state, mod, name, args, kw, line):
         for x in items[1:]:
             r = modfunc(ex, state, 'np', 'minimum', [r, x], {}, line)
         return r
+    if name == 'argsort':
+        o = npmodel.need_rank(ex, state, args[0], line)
+        if len(o.shape) != 1:
+            raise Unsupported('np.argsort of a non-vector at line %d' % line)
+        r = npmodel.new_arr(state, [o.shape[0]], False, kind='int')
+        r.ubound = o.shape[0]          # a permutation of range(n)
+        return r
     if name == 'einsum':
         return npmodel.einsum(ex, state, args[0], list(args[1:]), line)
     if name == 'kron':
